@@ -192,6 +192,18 @@ def r3_wiring(ctx):
 
 
 def r4_param(ctx):
+    pm = ctx.mod("chempy/printing/printer.py")
+    ds = pm.class_assign("Printer", "_default_settings")
+    mf = None
+    if isinstance(ds, ast.Call):
+        mf = next((k.value for k in ds.keywords if k.arg == "magnitude_fmt"), None)
+    spec = None
+    if isinstance(mf, ast.Lambda) and isinstance(mf.body, ast.BinOp) and isinstance(mf.body.op, ast.Mod) and isinstance(mf.body.left, ast.Constant) and isinstance(mf.body.left.value, str):
+        spec = mf.body.left.value
+    import re as _re
+    m_ = _re.fullmatch(r"%\.(\d+)g", spec or "")
+    ctx.check(m_ is not None and int(m_.group(1)) >= 3, "chempy/printing/printer.py:Printer._default_settings", "magnitude-format-significant-digits",
+              "the default magnitude format must keep significant digits whatever the size of the number (a %%.Ng format, N >= 3); found %r" % (spec if spec is not None else U(mf)), node=ds)
     fn = ctx.func(STR, "StrPrinter._Reaction_param_str")
     a = STR + ":StrPrinter._Reaction_param_str"
     vals = {}
@@ -277,7 +289,7 @@ RULES = [
     Rule("C20-R1", r1_roman, 18, "roman table == standard definition; greedy loop"),
     Rule("C20-R2", r2_pow10, 13, "power-of-ten siblings"),
     Rule("C20-R3", r3_wiring, 16, "number_to_scientific_<x> wiring; _number_to_X precision/unit/uncertainty"),
-    Rule("C20-R4", r4_param, 5, "_Reaction_param_str = magnitude + separator + unit"),
+    Rule("C20-R4", r4_param, 6, "_Reaction_param_str = magnitude + separator + unit"),
     Rule("C20-R6", r6_arms, 10, "which value/unit/uncertainty is formatted; exponent split"),
     Rule("C20-R5", r5_uncertainty_alignment, 9, "_float_str_w_uncert: one rounding position for value and uncertainty; both layouts"),
 ]
@@ -305,3 +317,5 @@ TWINS = [
     Twin("roman-list-literals", [(NUM, '"M CM D CD C XC L XL X IX V IV I".split()', '["M", "CM", "D", "CD", "C", "XC", "L", "XL", "X", "IX", "V", "IV", "I"]')]),
     Twin("roman-commuted", [(NUM, "result += t * cnt", "result += cnt * t")]),
 ]
+
+MUTANTS.append(Mutant("magnitude-fixed-decimals", [("chempy/printing/printer.py", 'magnitude_fmt=lambda x: "%.3g" % x,', 'magnitude_fmt=lambda x: "%.3f" % x,')], "C20-R4", "magnitude-format-significant-digits"))
